@@ -929,3 +929,10 @@ v("C20", "codec-encode-depth-step-2", "fire", "codec/tensor_codec.py",
   "self.encode(depth + 1, a, ranks, output, output_tensor, shape=shape)", "self.encode(depth + 2, a, ranks, output, output_tensor, shape=shape)", "C20.R1")
 v("C02", "addFiber-level-step-0", "fire", T,
   "self._addFiber(Payload.get(p), level + 1)", "self._addFiber(Payload.get(p), level + 0)", "C02.R5")
+
+v("C20", "C-coords-not-written-to-output", "fire", "codec/formats/coord_list.py",
+  "            output[coords_key].extend(coords)\n", "", "C20.R8")
+v("C20", "C-leaf-payload-extend", "fire", "codec/formats/coord_list.py",
+  "                self.payloads.append(val.value)", "                self.payloads.extend([val.value, val.value])", "C20.R8")
+v("C20", "U-occupancy-not-kept-on-object", "fire", "codec/formats/uncompressed.py",
+  "                    self.occupancies.append(cumulative_occupancy)\n", "", "C20.R8")
